@@ -1631,11 +1631,12 @@ def check_C15(tier):
     bounds = [(-1, -1), (1, -1), (2, -1), (-1, 0), (-1, 1), (-1, 2), (1, 1), (1, 2), (2, 3), (3, 4), (2, 2), (4, -1), (-1, 4)]
     if tier == "quick":
         bounds = [(-1, -1), (1, -1), (-1, 0), (-1, 1), (1, 2), (2, 3), (3, -1), (-1, 2)]
-    for tname, globs in (("deep", [None, "**", "a/**", "a/b/**", "a/b/c/*", "**/g"]), ("links", [None, "**", "a/**", "**/g", "a/tob/*"])):
+    # (a/b/c/f and a/b are invariant globs: the prefix is the whole glob; they also run with minima beyond their depth)
+    for tname, globs in (("deep", [None, "**", "a/**", "a/b/**", "a/b/c/*", "**/g", "a/b/c/f", "a/b"]), ("links", [None, "**", "a/**", "**/g", "a/tob/*"])):
         # (a glob whose literal prefix passes through a link starts its walk at the link: only with links read as targets)
         nodes, index = W.tree(W.TREES[tname])
         for g in globs:
-            for mn, mx in bounds:
+            for mn, mx in (bounds + [(5, -1), (3, -1), (4, 4), (2, -1), (5, 6)] if g in ("a/b/c/f", "a/b") else bounds):
                 for follow in ((False, True) if tname == "links" else (False,)):
                     if g == "a/tob/*" and not follow:
                         continue
